@@ -254,6 +254,105 @@ def _sqlite_faults_1(mod, real_connect, known, pairs, shape, interrupt):
     return traces
 
 
+# ---- JSON/pandas back-end: an exception raised by every serialisation primitive of the real save ---------------------------
+class _ModShim:
+    """stands for a module inside json_pandas_checkpointing: the named callables tick (and may fail) before they run"""
+
+    def __init__(self, real, ctl, names, label):
+        self._r, self._ctl, self._names, self._label = real, ctl, names, label
+
+    def __getattr__(self, n):
+        v = getattr(self._r, n)
+        if n in self._names:
+            ctl, label = self._ctl, self._label
+
+            def call(*a, **k):
+                ctl.tick(f"{label}.{n}")
+                if ctl.partial == ctl.n and n == "dump":          # the serialiser fails half-way: some bytes are already written
+                    data = self._r.dumps(a[0]) if label == "pickle" else self._r.dumps(a[0], **k).encode()
+                    a[1].write(data[: len(data) // 2] if label == "pickle" else data[: len(data) // 2].decode())
+                    raise ctl.exc(f"{label}.{n} (half-way)")
+                return v(*a, **k)
+            return call
+        return v
+
+
+class _PdShim:
+    def __init__(self, real, ctl):
+        self._r, self._ctl = real, ctl
+
+    def __getattr__(self, n):
+        if n != "DataFrame":
+            return getattr(self._r, n)
+        real, ctl = self._r, self._ctl
+
+        class DF:
+            @staticmethod
+            def from_dict(*a, **k):
+                df = real.DataFrame.from_dict(*a, **k)
+
+                class P:
+                    def to_csv(self, *a2, **k2):
+                        ctl.tick("DataFrame.to_csv")
+                        return df.to_csv(*a2, **k2)
+
+                    def __getattr__(self, m):
+                        return getattr(df, m)
+                return P()
+        return DF
+
+
+def json_fault_traces():
+    """the real five-file save with an exception raised by its k-th serialisation primitive (json.dump, pickle.dump/dumps,
+    DataFrame.to_csv, h5py.File): instead of doing its work, or (dump) after half of the bytes"""
+    from black_it.utils import json_pandas_checkpointing as mod
+
+    known = ckpt.Known(["A", "B"], "json")
+    traces = []
+    for before, prev, new in PAIRS:
+        for half in (False, True):
+            k = 1
+            while True:
+                folder = tempfile.mkdtemp(prefix="verif-c06-jf-")
+                try:
+                    evs = []
+                    with quiet():
+                        if prev:
+                            ckpt.save(folder, *prev, "json")
+                            evs.append({"e": "save", "b": "json", "run": prev[0], "rows": prev[1]})
+                        ctl = _Ctl(k)
+                        ctl.partial = k if half else -1
+                        if half:
+                            ctl.fail_at = -1
+                        orig = (mod.json, mod.pickle, mod.pd, mod.h5py)
+                        mod.json = _ModShim(orig[0], ctl, {"dump", "dumps"}, "json")
+                        mod.pickle = _ModShim(orig[1], ctl, {"dump", "dumps"}, "pickle")
+                        mod.pd = _PdShim(orig[2], ctl)
+                        mod.h5py = _ModShim(orig[3], ctl, {"File"}, "h5py")
+                        try:
+                            raised = False
+                            try:
+                                ckpt.save(folder, *new, "json")
+                            except _Boom:
+                                raised = True
+                        finally:
+                            mod.json, mod.pickle, mod.pd, mod.h5py = orig
+                        if not raised:
+                            if not half or k > len(ctl.names):
+                                break
+                            k += 1          # (half-way failures exist for dump only: other primitives run normally at that k)
+                            continue
+                        point = ctl.names[-1] + (":half-way" if half else "")
+                        evs.append({"e": "interrupted", "b": "json", "run": new[0], "rows": new[1], "point": point})
+                        evs.append(ckpt.load(folder, "json", known, [new] + ([prev] if prev else [])))
+                    traces.append({"ev": evs, "before": before, "at": "exc", "sub": f"{point}#{k}", "file": point, "real": outcome(evs[-1], prev, new),
+                                   "predicted": None, "prev": prev, "new": new})
+                finally:
+                    shutil.rmtree(folder, ignore_errors=True)
+                k += 1
+    return traces
+
+
 # ------------------------------------------------------------------------------------------------
 def run(tier: str) -> int:
     chk = Check("C06", tier)
@@ -271,7 +370,9 @@ def run(tier: str) -> int:
     chk.extra["tlc_crash_points_tabulated"] = n_pred
     traces, drift, points = json_crash_traces(tier, rng, pred)
     sql = sqlite_fault_traces()
-    allt = traces + sql
+    jf = json_fault_traces()
+    chk.extra["json_exception_points"] = len(jf)
+    allt = traces + sql + jf
     doc = {"traces": [{"ev": [_tl(e) for e in t["ev"]]} for t in allt]}
     res = tlc.validate("CheckpointTrace", "CheckpointTrace.cfg", doc, chunk=3000)
     chk.add_validation(res)
@@ -291,6 +392,8 @@ def run(tier: str) -> int:
             key = f"json:{ckpt.ABSTRACT.get(t['file'], t['file'])}:{'before-open' if t['at'].startswith('w_') else sub if t['sub'] != 'clean' else 'truncated'}:{'noprev' if t['prev'] is None else 'prev'}"
             if t["at"] == "done":
                 key = "json:complete-save"
+            if t["at"] == "exc":
+                key = f"json:exception-in:{t['file']}:{'noprev' if t['prev'] is None else 'prev'}"
         else:
             key = f"sqlite:{t['at']}:{'noprev' if t['prev'] is None else 'prev'}"
         comp = "error" if ev["err"] else {k: v for k, v in ev["comp"].items()}
@@ -315,7 +418,7 @@ def replay(rep: dict) -> int:
     rng = random.Random(600)
     pred, _ = predictions()
     traces, _d, _p = json_crash_traces("quick", rng, pred)
-    traces += sqlite_fault_traces()
+    traces += sqlite_fault_traces() + json_fault_traces()
     sel = [t for t in traces if t["at"] == rep["at"] and t["before"] == rep["before"]] or traces
     res = tlc.validate("CheckpointTrace", "CheckpointTrace.cfg", {"traces": [{"ev": [_tl(e) for e in t["ev"]]} for t in sel]})
     chk.add_validation(res)
